@@ -477,6 +477,11 @@ func (s *adsStreamImpl) recv(stream clients.Stream) bool {
 			// know that it's invalid.  But we shouldn't ACK either, because we
 			// don't know that it is valid.
 			s.logger.Warningf("%v", nackErr)
+			// The response is dropped without involving any watcher, so
+			// nobody will ever invoke the onDone callback: release the
+			// flow control here, or the next fc.wait() blocks forever and
+			// the stream is never read again.
+			s.fc.setPending(false)
 			continue
 		}
 
